@@ -42,6 +42,9 @@ def alphabet():
         ops.append(("d", k))
     for c in range(3):
         ops.append(("c", c))
+    for c in range(3):
+        # the clock moves and the FIRST thing done at the new instant is a pure query for a deferred month of the chain
+        ops.append(("cp", c))
     return ops
 
 
@@ -77,7 +80,7 @@ class RefBook:
 
 def ref_apply(books, now, op):
     books = {k: v.copy() for k, v in books.items()}
-    if op[0] == "c":
+    if op[0] in ("c", "cp"):
         return books, CLOCKS[op[1]]
     sym = resolve(KEYS[op[1]], now)
     bk = books.setdefault(sym, RefBook())
@@ -94,6 +97,12 @@ def ref_apply(books, now, op):
 def impl_apply(ex, op):
     if op[0] == "c":
         AbstractContract.now = CLOCKS[op[1]]
+    elif op[0] == "cp":
+        AbstractContract.now = CLOCKS[op[1]]
+        try:
+            CHAIN.lead_contract(month=1)      # a query: must not change what the chain key addresses
+        except Exception:
+            pass                              # no deferred month listed once the last contract leads
     elif op[0] == "q":
         bid, ask = pairs()[op[2]]
         ex.process_EventNBBO(EventNBBO(T0, KEYS[op[1]], bid, ask))
